@@ -168,7 +168,7 @@ Proof.
     assert (Hn : nofuel (dec_struct (D f) (SStruct nullable fs) d (filter (fun kv => negb (is_type_key kv)) kvs))).
     { apply dec_struct_nofuel. intros ff k x c Hf Hk. eapply H; eauto. }
     destruct (dec_struct (D f) (SStruct nullable fs) d (filter (fun kv => negb (is_type_key kv)) kvs)) as [a|e0|].
-    + destruct (validate orc a (SStruct nullable fs)); unfold nofuel; congruence.
+    + destruct (validate orc a (SStruct nullable fs)); [destruct (ctor_ok (SStruct nullable fs) a)|]; unfold nofuel; congruence.
     + unfold nofuel; congruence.
     + exfalso. apply Hn. reflexivity.
   - destruct (filter (fun kv => negb (is_type_key kv)) kvs); unfold nofuel; congruence.
